@@ -129,6 +129,9 @@ type Exec struct {
 	digests     []digestTerm
 	schedND     bool
 	schedPoints int
+	jsonTimes    map[string]value  // token name -> nanosecond term of a rendered instant
+	jsonTimeOf   map[string]string // nanosecond term -> token name
+	jsonUnsorted bool              // JSON with symbolic map keys was emitted on this path
 	globApps    [][2]string
 	maxRand     int
 	maxCex      int
@@ -2167,4 +2170,11 @@ func containsStr(l []string, x string) bool {
 		}
 	}
 	return false
+}
+
+// noteAssumption records a modelling assumption that was actually exercised (reported in evidence).
+func (e *Exec) noteAssumption(s string) {
+	if e.Stats != nil && e.Stats.Assumptions != nil {
+		e.Stats.Assumptions[s] = true
+	}
 }
